@@ -186,6 +186,14 @@ def run(sc):
                     "choices": {"handles": "small"}}}, sim=sim, net=net)
                 d2 = LogixDriver("10.0.0.88", init_tags=False)
                 o1, r1 = harness.call(sim, d2.open)
+                # the Micro800 has no backplane and no Unconnected Send: its identity is fetched by plain UCMM while
+                # the driver opens, and `info` holds it as the device encodes it
+                evals["C16"] += 1
+                if o1 != "ok" or not r1:
+                    hits.hit("C16", "identity.decode", f"LogixDriver.open() on a Micro800 -> {o1}: {type(r1).__name__}: {r1}",
+                             api="open/get_plc_info", field="exception")
+                else:
+                    cmp_identity(d2.info, expected_identity(envM.ctl.identity, lib), hits, "open/get_plc_info")
                 o2, r2 = harness.call(sim, d2.close)
                 shape.append((k, o1, o2))
                 sim.probe("second_driver_micro800_visit")
